@@ -400,6 +400,16 @@ func TestBetaInc(t *testing.T) {
 	ev.Rule(rule)
 	ev.Rapid(t, "c08-betainc", 8000, 1600000, func(rt *rapid.T) {
 		c := &BetaCase{A: drawAB(rt, "a"), B: drawAB(rt, "b")}
+		if rapid.IntRange(0, 7).Draw(rt, "gammaLimit") == 0 {
+			// where Gamma(a+b), Gamma(a) or Gamma(b) reaches the float64 limit (argument
+			// 171.62): the sum just below and above it, one parameter small (its Gamma large)
+			sum := 171.6244 + rapid.Float64Range(-0.6, 0.4).Draw(rt, "sumNearLimit")
+			small := gen.LogUniform(rt, 0.05, 2, "smallParam")
+			c.A, c.B = small, sum-small
+			if rapid.Bool().Draw(rt, "swapAB") {
+				c.A, c.B = c.B, c.A
+			}
+		}
 		mean := c.A / (c.A + c.B)
 		sd := math.Sqrt(c.A * c.B / ((c.A + c.B) * (c.A + c.B) * (c.A + c.B + 1)))
 		sw := (c.A + 1) / (c.A + c.B + 2)
